@@ -60,12 +60,12 @@ def replay_graph(cx, name, c, max_paths=None, maxpolls=2, sizes=None, timeout=90
 
 
 def random_runs(cx, name, c, n, policies=("uniform", "pct", "window"), fault_prob=0.0, cancel_prob=0.0,
-                sizes=None, traced=True, max_steps=800):
+                sizes=None, traced=True, max_steps=800, pcancel_prob=0.0):
     cases = []
     for i in range(n):
         pol = policies[i % len(policies)]
         rand = {"seed": cx.rnd.randrange(1 << 40), "policy": pol, "fault_prob": fault_prob,
-                "cancel_prob": cancel_prob, "depth": 3}
+                "cancel_prob": cancel_prob, "depth": 3, "pcancel_prob": pcancel_prob if c.get("pcancel") else 0.0}
         cases.append(go_case(c, "%s-r%d" % (name, i), cx.rnd, rand=rand, sizes=sizes, notrace=not traced,
                              max_steps=max_steps))
     results = run_driver(cx.driver, "chan", cases, cx.wd, tag=name)
@@ -233,6 +233,16 @@ def check_C06(cx):
     n = 30 if quick else 300
     for name, c in big:
         random_runs(cx, name, c, n, policies=("window", "pct", "uniform"), sizes=NZ_SIZES)
+    # Close finds a backlog larger than one batch (writers first, senders last), queue sizes 3..8
+    for name, c in [("d5q4", cfg({"W%d" % i: W("W1") for i in range(1, 6)}, {"C1": "e1"}, qsize=4, until=True)),
+                    ("d6q3nb", cfg({"W%d" % i: W("Wv") for i in range(1, 7)}, {"C1": "nil"}, qsize=3, until=False)),
+                    ("d4q8", cfg({"W%d" % i: W("W1", "CW1", "Wv") for i in range(1, 5)}, {"C1": "e1"}, qsize=8, until=True))]:
+        random_runs(cx, name, c, 24 if quick else 200, policies=("drain",), sizes=NZ_SIZES)
+    # the parent context (bootstrap shutdown) is cancelled around Close: Close must still wait and drain
+    pc = cfg({"W1": W("W1"), "W2": W("Wv")}, {"C1": "e1"}, qsize=1, until=True, pcancel=True)
+    mc_and_replay_cex(cx, "MCpcancel", pc, inv, what="C06 invariants with parent-context cancellation")
+    random_runs(cx, "pc3q2", cfg({"W1": W("W1", "Wv"), "W2": W("Wv", "WW"), "W3": W("CW1")}, {"C1": "e1"}, qsize=2, until=True, pcancel=True),
+                n, policies=("window", "drain", "uniform"), sizes=NZ_SIZES, pcancel_prob=0.08)
     return finish(cx)
 
 
@@ -380,6 +390,23 @@ def check_C05(cx):
     n = 30 if quick else 300
     for name, c in big:
         random_runs(cx, name, c, n, fault_prob=0.15, sizes=NZ_SIZES)
+    # parent context cancelled without any Close call: the read loop closes the channel itself
+    pinv = inv + ["C05_LoopExitClosed"]
+    pc = cfg({"W1": W("W1")}, {"C1": "e1"}, qsize=1, until=True, serve="full", reads=1, pcancel=True)
+    mc_and_replay_cex(cx, "MCpcancel", pc, pinv, what="C05 invariants with parent-context cancellation")
+    pc0 = cfg({"W1": W("W1")}, {}, qsize=1, until=True, serve="full", reads=1, pcancel=True)
+    mc_and_replay_cex(cx, "MCpcancel0", pc0, pinv, what="C05 invariants, parent cancellation and no Close call")
+    st = replay_graph(cx, "gpc", pc0, max_paths=300 if quick else None)
+    log("  replay gpc: %s" % st)
+    random_runs(cx, "pc2c2", cfg({"W1": W("W1", "Wv"), "W2": W("CW1")}, {"C1": "e1", "C2": "e2"}, qsize=2, until=True, serve="full", reads=2, maxfaults=1, pcancel=True),
+                n, fault_prob=0.1, sizes=NZ_SIZES, pcancel_prob=0.1)
+    random_runs(cx, "pc2c0", cfg({"W1": W("W1", "Wv"), "W2": W("CW1")}, {}, qsize=0, serve="full", reads=2, pcancel=True),
+                n, sizes=NZ_SIZES, pcancel_prob=0.15)
+    # a bounded-wait Close that gives up on a stalled sender (10 real polls): the late sender failure
+    # must not disturb the close sequence of the call that took effect
+    for name, c in [("stall1", cfg({"W1": W("W1", "Wv")}, {"C1": "e1"}, qsize=1, until=False, serve="full", reads=1)),
+                    ("stall2", cfg({"W1": W("W1"), "W2": W("CW1")}, {"C1": "e1", "C2": "nil"}, qsize=2, until=False))]:
+        random_runs(cx, name, c, 16 if quick else 64, policies=("stall",), sizes=NZ_SIZES)
     return finish(cx)
 
 
